@@ -4,6 +4,7 @@ import (
 	"fmt"
 
 	"fortio.org/log"
+	"grol.io/grol/token"
 )
 
 func ModifyNoOk(node Node, f func(Node) Node) Node {
@@ -51,9 +52,13 @@ func Modify(node Node, f func(Node) (Node, bool)) (Node, bool) { //nolint:funlen
 		if !cont {
 			return nil, false
 		}
-		newNode.Index, cont = Modify(node.Index, f)
-		if !cont {
-			return nil, false
+		if node.Token != nil && node.Token.Type() == token.DOT {
+			newNode.Index = node.Index // m.key: the key is a name, not an expression to rewrite.
+		} else {
+			newNode.Index, cont = Modify(node.Index, f)
+			if !cont {
+				return nil, false
+			}
 		}
 		return f(newNode)
 	case *IfExpression:
@@ -177,6 +182,10 @@ func Modify(node Node, f func(Node) (Node, bool)) (Node, bool) { //nolint:funlen
 		return f(newNode)
 	case *CallExpression:
 		newNode := *node
+		newNode.Function, cont = Modify(node.Function, f) // e.g. fs[i](x): the callee expression can mention rewritten names too.
+		if !cont {
+			return nil, false
+		}
 		newNode.Arguments = make([]Node, len(node.Arguments))
 		for i := range node.Arguments {
 			newNode.Arguments[i], cont = Modify(node.Arguments[i], f)
